@@ -120,19 +120,20 @@ CHECKS = {
         technique="Coq proof (total decision function with explicit Crash/OsError constructors proved unreachable; consistency by case analysis over the port search) + exhaustive cross-product correspondence"),
 
     "C04": dict(
-        text=("25 theorems (Props/C04.v). Proved for every initial kernel state (foreign rules, other instances), every plan, every cut and every "
+        text=("31 theorems (Props/C04.v). Proved for every initial kernel state (foreign rules, other instances), every plan, every cut and every "
               "fault set (nat/nft/tproxy): everything not named for the session's ports is unchanged and in order at every intermediate state; a cut "
               "before GO issues no command; once no own object remains the final state is exactly the initial one; the chain-listing parse is exact "
               "membership (sshuttle-1230 vs sshuttle-12300). The clause 'every exit path: nothing own remains and a later session can start, for every k-th failing "
               "command and every cut' is PROVED IN GENERAL for nat without owner match, tproxy (repaired) and nft (c04_nat_all_exits, c04_tproxy_all_exits, c04_nft_all_exits: every plan body, every clean start state with foreign rules/chains/other instances, "
-              "every failing command index, every cut; abstract own-object state + simulation, Proofs/FwLife_gen_*.v); for nat with --user/--group it is proved only as kernel-evaluated sweeps (…_partial; the remaining general "
-              "statement c04_all_exits_full excludes exactly the F41 command and is kept as an unproved Definition). Logging is total: helpers.log returns for every OSError/ValueError raised by its streams, and then the session with all its log points "
+              "every failing command index, every cut; abstract own-object state + simulation, Proofs/FwLife_gen_*.v); for nat with --user/--group it is proved in general too (c04_all_exits_full: every exit except a failing tear-down `-t mangle -D OUTPUT … MARK`, which is known finding F41). "
+              "pf: the fault-free session is the identity on module, enable state, Darwin tokens, anchors and (on FreeBSD, or without `set skip on lo`) the main ruleset, for every flavour, configuration and cut (c04_pf_identity; the `pfctl -s all` status parse is exact); with `set skip on lo` OpenBSD/Darwin replace the main ruleset and never restore it "
+              "(c04_pf_identity_full_refuted; known finding F43); pf exits with failing commands are covered by the harness only. Logging is total: helpers.log returns for every OSError/ValueError raised by its streams, and then the session with all its log points "
               "(debug1 before every command, log after a failed nonfatal command, every debug call of firewall.main incl. inside finally) issues the same commands and ends in the same state as without logging, for every verbosity and every outcome of every stream operation "
               "(c04_log_total, c04_log_faults_invisible, c04_nat_all_exits_hangup; the narrowed clause of seeded change C04-b is refuted by c04_log_narrow_refuted); as-found tproxy and pf/FreeBSD refuted with witnesses (F9, F17: "
-              "fixed; F41, F42: known findings). Tied to /repo by running the real firewall.main + real method modules with every external command answered by the extracted kernel model as a co-process, for every cut and every fault index, under a logging environment (verbosity 0/1/2 x k-th stderr/stdout operation raising OSError(EIO)/BrokenPipeError/ValueError/..., once or from then on); real helpers.log vs the model's log_call for every exception class and position; fail-closed ast check of its except clauses."),
-        note="modelled not verified: iptables/nft/pfctl command semantics (DESIGN Appendix B; not validated against the real kernel in this check), SIGKILL/SIGTERM modelled as a dialogue cut. The all-exits clause is general for nat (no owner)/tproxy/nft, finite sweeps for nat with owner match; pf is covered by the harness and the partial identity theorem only.",
+              "fixed; F41, F42, F43: known findings). Tied to /repo by running the real firewall.main + real method modules with every external command answered by the extracted kernel model as a co-process, for every cut and every fault index, under a logging environment (verbosity 0/1/2 x k-th stderr/stdout operation raising OSError(EIO)/BrokenPipeError/ValueError/..., once or from then on); real helpers.log vs the model's log_call for every exception class and position; fail-closed ast check of its except clauses."),
+        note="modelled not verified: iptables/nft/pfctl command semantics (DESIGN Appendix B; not validated against the real kernel in this check), SIGKILL/SIGTERM modelled as a dialogue cut. The all-exits clause is general for every iptables/nft method (nat with and without owner match, tproxy, nft); pf: general fault-free identity theorem, exits with failing commands by the harness only.",
         design="DESIGN.md §5 C04",
-        technique="Coq proof (frame invariant over all command sequences; general all-exits theorems by simulation to an abstract own-object state; finite sweeps by vm_compute for nat with owner match) + trace/state correspondence with fault injection at every command index"),
+        technique="Coq proof (frame invariant over all command sequences; general all-exits theorems by simulation to an abstract own-object state; product state with a MARK-rule counter for the owner match; pf anchor-state model) + trace/state correspondence with fault injection at every command index"),
 
     "C17": dict(
         text=("21 theorems (Props/C17.v): for all ip < 2^32 and w <= 32 the computed network has host bits cleared and network bits kept (and this is what "
